@@ -35,7 +35,13 @@ ASSUMPTIONS = [
 ]
 SHARDS = {'quick': 1, 'thorough': 4}
 TIMEOUT = {'quick': 900, 'thorough': 1800}
-FLOORS = {'denials_checked': 600, 'routes_enumerated': 60, 'allowed_mutations_observed': 10, 'ownership_denials_checked': 20}
+FLOORS = {'denials_checked': 600, 'routes_enumerated': 60, 'allowed_mutations_observed': 10, 'ownership_denials_checked': 20,
+          'listing_responses_scanned': 150, 'records_in_listings_checked': 300, 'listings_with_foreign_jobs_in_matching_state': 40}
+
+# search terms for the listing routes: v1 (bare words, multi-state words, negations) and v2 (state / comparison expressions)
+QUERIES = ['', 'live', 'bad', 'done', '!done', '!live', 'running', 'failed', 'success', 'pending', 'cancelled', 'live\nbad', 'done\nname=x', 'has:name',
+           'state = running', 'state != success', 'state =~ fail', 'job_id >= 1', 'state = failed\njob_id >= 1', 'billing_project = bp-b', 'user = bob',
+           'batch_id >= 1', 'open', 'closed', 'complete', '!open', 'user != alice']
 
 PUBLIC = {'/healthcheck', '/api/v1alpha/version', '/api/v1alpha/cloud', '/swagger', '/openapi.yaml', '/tos', '/privacy', '/batch/static/js/{filename}'}
 OWNER_ONLY = [
@@ -52,6 +58,107 @@ CALLERS = ['none', 'invalid', 'inactive', 'stranger', 'member', 'owner', 'develo
 
 def job_spec(i):
     return {'job_id': i, 'process': {'type': 'docker', 'command': ['true'], 'image': 'u'}, 'resources': {'cpu': '1', 'memory': 'standard', 'storage': '1Gi'}}
+
+
+def referenced_batches(obj, out):
+    """(batch id, kind) of every batch / job / job-group record inside a JSON response or a page context"""
+    if isinstance(obj, dict):
+        if 'batch_id' in obj and isinstance(obj['batch_id'], int):
+            out.append((obj['batch_id'], 'job-or-group-record'))
+        elif 'id' in obj and 'billing_project' in obj and isinstance(obj['id'], int):
+            out.append((obj['id'], 'batch-record'))
+        for v in obj.values():
+            referenced_batches(v, out)
+    elif isinstance(obj, (list, tuple)):
+        for v in obj:
+            referenced_batches(v, out)
+
+
+async def listing_phase(ctx, w, fe, base_state, batches, routes):
+    """Content oracle: whatever a listing / detail route returns, with any search expression, every record in the response
+    belongs to a batch whose billing project the caller is a member of.  The other tenants' batches hold jobs in every
+    state class (running / failed / success / pending) so that a filter that loses its batch or user scope has something to leak."""
+    import json as _json
+    import urllib.parse
+
+    w.engine.load_state(base_state)
+    # ledger: who may read which batch (billing-project membership at creation: bp-a = alice, bob; bp-b = bob)
+    readers = {batches['own']: {'alice', 'bob'}, batches['shared']: {'alice', 'bob'}, batches['foreign']: {'bob'}, batches['deleted']: set()}
+    state_by_job = {1: 'Running', 2: 'Failed', 3: 'Success', 4: 'Ready'}
+    for name in ('own', 'shared', 'foreign'):
+        bid = batches[name]
+        for jid, st in state_by_job.items():
+            if jid == 1:
+                continue
+            await w.db.just_execute(
+                'INSERT INTO jobs (batch_id, job_id, update_id, job_group_id, state, spec, always_run, cores_mcpu, n_pending_parents, inst_coll, n_regions, regions_bits_rep) '
+                'SELECT batch_id, %s, update_id, job_group_id, state, spec, always_run, cores_mcpu, n_pending_parents, inst_coll, n_regions, regions_bits_rep FROM jobs WHERE batch_id = %s AND job_id = 1',
+                (jid, bid))
+        for jid, st in state_by_job.items():
+            await w.db.just_execute('UPDATE jobs SET state = %s WHERE batch_id = %s AND job_id = %s', (st, bid, jid))
+    # the completed-batches listing only shows batches with a completion time
+    await w.db.just_execute('UPDATE batches SET time_completed = 1700000000000 + id WHERE id IN (%s, %s)', (batches['own'], batches['foreign']))
+    state = w.engine.save_state()
+    captured = []
+    import aiohttp_jinja2
+
+    def capture(file, request, context, *a, **k):
+        captured.append(context)
+        from aiohttp import web
+        return web.Response(text='', content_type='text/html')
+    old = getattr(aiohttp_jinja2, 'render_template', None)
+    aiohttp_jinja2.render_template = capture
+    callers = {'owner': 'alice', 'member': 'bob', 'stranger': 'carol', 'developer': 'dev'}
+    try:
+        for method, path in routes:
+            if method != 'GET' or path in PUBLIC:
+                continue
+            listing = path.endswith('/jobs') or path.endswith('/batches') or path.endswith('/batches/completed') or path.endswith('/job-groups') or path.endswith('/jobs/resources')
+            for tname in (('own', 'shared', 'foreign') if '{batch_id}' in path else ('own',)):
+                bid = batches[tname]
+                for caller, uname in callers.items():
+                    for q in (QUERIES if listing else ['']):
+                        w.engine.load_state(state)
+                        del captured[:]
+                        url = (path.replace('{batch_id}', str(bid)).replace('{job_group_id}', '0').replace('{job_id}', '1').replace('{container}', 'main')
+                               .replace('{billing_project}', 'bp-a').replace('{user}', 'carol').replace('{update_id}', '1').replace('{filename}', 'x.js'))
+                        if q:
+                            url += '?q=' + urllib.parse.quote(q)
+                        try:
+                            resp = await fe.request(method, url, token='tok-' + caller)
+                        except Unsupported as e:
+                            raise Inconclusive('minimysql unsupported: ' + str(e))
+                        except Exception as e:
+                            ctx.seen('listing_exceptions', f'{type(e).__name__}: {str(e)[:80]} @ {path} q={q!r}')
+                            continue
+                        ctx.seen('listing_status', resp.status)
+                        if resp.status != 200:
+                            continue
+                        docs = list(captured)
+                        try:
+                            if resp.text_ and resp.text_.lstrip()[:1] in '[{':
+                                docs.append(_json.loads(resp.text_))
+                        except ValueError:
+                            pass
+                        if not docs:
+                            continue
+                        refs = []
+                        referenced_batches(docs, refs)
+                        ctx.count('listing_responses_scanned')
+                        ctx.count('records_in_listings_checked', len(refs))
+                        if listing and any(uname not in r for r in readers.values()):
+                            ctx.count('listings_with_foreign_jobs_in_matching_state')
+                        case = {'route': path, 'caller': caller, 'target': tname, 'q': q, 'n_records': len(refs)}
+                        ctx.case(sample=case, key=('listing', path, caller, tname, q), nontrivial=bool(refs))
+                        for rb, kind in refs:
+                            if uname not in readers.get(rb, set()):
+                                ctx.violation('response-leaks-record-of-unreadable-batch',
+                                              f'GET {path} q={q!r} on batch {tname} answered caller {caller} ({uname}) with a {kind} of batch {rb}, '
+                                              f'whose billing project {uname} does not belong to', dict(case, leaked_batch=rb, kind=kind))
+                                break
+    finally:
+        if old is not None:
+            aiohttp_jinja2.render_template = old
 
 
 def run(ctx):
@@ -199,6 +306,7 @@ def run(ctx):
                             ctx.violation('owner-denied', f'{method} {path} answered {status} to the owner', case)
                         if changed:
                             ctx.count('allowed_mutations_observed')
+        await listing_phase(ctx, w, fe, base_state, {'own': own, 'shared': shared, 'foreign': foreign, 'deleted': deleted}, routes)
         await w.shutdown()
     run_virtual(main, max_steps=20_000_000)
     ctx.exhaustive = False
